@@ -3,7 +3,8 @@
  R1 every call-graph path from an entry point to a persistent-write sink carries the guards the property names
     (save_output flag traced through locals / attributes / dict entries / constructor arguments; remote 'results'
     writes additionally APP_ENV != "local");
- R2 the live-results write dominates the raise of the not-enough-subunits error (on the paths where it is enabled);
+ R2 the live-results write dominates the raise of the not-enough-subunits error (on the paths where it is enabled), and the
+    writer itself puts on every path from its entry to a normal return (must-pass-through in its CFG);
  R3 every remote key template starts with {S3_FILE_PATH}/{election_id}/ and its constant parts hold no whitespace;
  R4 prediction tables: exactly one put per entry of final_results, keyed by the entry's name.
 """
@@ -153,6 +154,24 @@ def check(ctx):
         ctx.ob("C18.R2.order", f"{ge.qualname}|write before {util.stmt_text(r, 60)}", ok_any, ge.where(r),
                "the live-results write dominates the not-enough-subunits raise (when enabled)" if ok_any
                else "a path reaches the not-enough-subunits raise without having written the live results")
+
+    # the callee itself must put on every normal path (a write call that can return without writing saves nothing)
+    wdf = ctx.fn("elexmodel.handlers.data.CombinedData", "CombinedDataHandler.write_data")
+    wcfg = CFG(wdf.node)
+    wputs = [c for c in util.own_nodes(wdf, ast.Call) if isinstance(c.func, ast.Attribute) and c.func.attr == "put"
+             and any(isinstance(x, FuncInfo) and x.module.name == S3MOD for x in ctx.resolver.resolve_call(wdf, c))]
+    ctx.sites("C18.R2.unconditional", len(wputs), 1, "remote put calls in CombinedDataHandler.write_data")
+    must = [c for c in wputs if wcfg.every_path_passes(wcfg.entry, wcfg.exit, {wcfg.node_of(c)})]
+    ctx.ob("C18.R2.unconditional", f"{wdf.qualname}|every normal return has written the live results", bool(must), wdf.where(),
+           f"{len(must)} of {len(wputs)} put calls lie on every path from entry to a normal return" if must
+           else "the live-results writer can return without any put (early return / conditional write): a run that ends in the "
+                "not-enough-subunits error has then saved nothing")
+    if must:
+        first = min(must, key=lambda c: (c.lineno, c.col_offset))
+        keyt = ast.unparse(first.args[0]) if first.args else ""
+        ctx.ob("C18.R2.unconditional", f"{wdf.qualname}|the unconditional put is the full live-results file", len(must) == len(wputs), wdf.where(first),
+               "all puts of the live results are unconditional" if len(must) == len(wputs)
+               else f"only {len(must)} of {len(wputs)} live-results files are written on every path")
 
     # ---- R3 ------------------------------------------------------------------------------
     b = ctx.builder()
